@@ -10,6 +10,7 @@ import (
 	"io"
 	"log"
 	"sort"
+	"strings"
 	"sync"
 	"testing/synctest"
 	"time"
@@ -17,7 +18,10 @@ import (
 	"github.com/gammazero/nexus/v3/router"
 	"github.com/gammazero/nexus/v3/router/auth"
 	"github.com/gammazero/nexus/v3/transport"
+	"github.com/gammazero/nexus/v3/transport/serialize"
 	"github.com/gammazero/nexus/v3/wamp"
+
+	"verif/harness/tpeers"
 )
 
 // Scenario is one configuration plus an operation sequence.
@@ -128,6 +132,7 @@ type client struct {
 	peer    wamp.Peer // client side
 	sid     wamp.ID
 	stalled bool
+	via     bool // attached through a real transport
 	closed  bool // receive channel seen closed
 	dropped bool // the client closed its side
 }
@@ -326,14 +331,34 @@ func (w *world) toMsg(l []any) wamp.Message {
 func (w *world) join(op map[string]any) string {
 	key := int(num(op["s"]))
 	capacity := int(num(op["cap"]))
-	c, s := transport.LinkedPeersQSize(capacity)
 	local := true
 	if b, ok := op["local"].(bool); ok {
 		local = b
 	}
-	var rs wamp.Peer = s
-	if !local {
-		rs = remotePeer{s}
+	var c, rs wamp.Peer
+	if via, _ := op["via"].(string); via != "" && !local {
+		// a real transport between client and router: "rawsocket:msgpack", "websocket:json", ...
+		parts := strings.SplitN(via, ":", 2)
+		cfg := tpeers.Config{Transport: tpeers.Transport(parts[0]), OutQueueSize: capacity}
+		switch parts[1] {
+		case "msgpack":
+			cfg.Serialization = serialize.MSGPACK
+		case "cbor":
+			cfg.Serialization = serialize.CBOR
+		default:
+			cfg.Serialization = serialize.JSON
+		}
+		pair, err := tpeers.New(cfg)
+		if err != nil {
+			return "transport: " + err.Error()
+		}
+		c, rs = pair.Client, pair.Router
+	} else {
+		lc, ls := transport.LinkedPeersQSize(capacity)
+		c, rs = lc, ls
+		if !local {
+			rs = remotePeer{ls}
+		}
 	}
 	realm := strOf(op, "realm", w.realm)
 	hello, _ := op["hello"].(map[string]any)
@@ -353,27 +378,38 @@ func (w *world) join(op map[string]any) string {
 	transportDetails := w.dict(op["transport"])
 	go func() { defer w.helpers.Done(); errc <- w.r.AttachClient(rs, transportDetails) }()
 	synctest.Wait()
+	giveUp := func() {
+		// the router refused: close the client end too, so that the transport's goroutines exit
+		defer func() { recover() }()
+		c.Close()
+	}
 	select {
 	case err := <-errc:
 		if err != nil {
+			giveUp()
 			return "refused"
 		}
 	default:
+		giveUp()
 		return "attach did not return"
 	}
 	select {
 	case m, ok := <-c.Recv():
 		if !ok {
+			giveUp()
 			return "closed before WELCOME"
 		}
 		wel, ok := m.(*wamp.Welcome)
 		if !ok {
+			giveUp()
 			return "expected WELCOME, got " + m.MessageType().String()
 		}
-		cl := &client{key: key, peer: c, sid: wel.ID}
+		via, _ := op["via"].(string)
+		cl := &client{key: key, peer: c, sid: wel.ID, via: via != "" && !local}
 		w.clients[key] = cl
 		w.sidKey[wel.ID] = key
 	default:
+		giveUp()
 		return "no WELCOME"
 	}
 	return ""
@@ -452,6 +488,9 @@ func (w *world) apply(op map[string]any) (out map[int][]wamp.Message, closed []i
 		if c.stalled || c.closed {
 			continue
 		}
+		// A transport hands messages over one at a time (its reader goroutine blocks on the
+		// client's channel), so after an empty poll let the goroutines run and poll once more.
+		retried := false
 	drain:
 		for {
 			select {
@@ -462,8 +501,13 @@ func (w *world) apply(op map[string]any) (out map[int][]wamp.Message, closed []i
 					break drain
 				}
 				out[key] = append(out[key], m)
+				retried = false
 			default:
-				break drain
+				if !c.via || retried {
+					break drain
+				}
+				retried = true
+				synctest.Wait()
 			}
 		}
 	}
@@ -510,6 +554,17 @@ func (w *world) shutdown() (err error) {
 		}
 	}()
 	w.r.Close()
+	// close every client end so that the transports' goroutines exit
+	for _, c := range w.clients {
+		if !c.dropped {
+			c.dropped = true
+			func() {
+				defer func() { recover() }()
+				c.peer.Close()
+			}()
+		}
+	}
+	time.Sleep(3 * time.Second) // let readers notice (the peers wait up to 1 s to hand over a last message)
 	close(done)
 	<-stopped
 	close(w.quit)
